@@ -150,7 +150,7 @@ func runFilesCase(r *ev.Run, w *world, fc filesCase) {
 	if o.violations == 0 {
 		r.Count("cases_held", 1)
 	}
-	if fc.idx == 3 {
-		r.Sample(map[string]any{"case": fc.info, "continued_with": o.trace})
+	if fc.idx >= 3 {
+		sampleFirst(r, "files", map[string]any{"case": fc.info, "continued_with": o.trace})
 	}
 }
